@@ -173,6 +173,10 @@ func relayClientOpt(proxyAddr, path string, timeout time.Duration, announce bool
 	if q := pathParam(path, "q"); q > 0 {
 		method = "POST"
 		body = bytes.NewReader(pattern(path+"req", q))
+		if pathParam(path, "m") == 1 {
+			// a client that streams its body: no Content-Length, Transfer-Encoding: chunked
+			body = struct{ io.Reader }{body}
+		}
 	}
 	req, _ := http.NewRequest(method, "http://"+proxyAddr+path, body)
 	req.Header.Set("X-Req-Token", path)
